@@ -270,6 +270,37 @@ fn case_strategy(boxw: u32, boxh: u32) -> impl Strategy<Value = PageCase> {
         .prop_map(|((w, h, origin), ops)| PageCase { w, h, origin, ops })
 }
 
+/// out-of-bounds calls made from a destructor while the thread unwinds from an unrelated panic
+pub fn check_unwinding(w: u32, h: u32) -> Result<(), String> {
+    let r = crate::engine::while_unwinding(move || -> Result<(), String> {
+        let mut page = Page::new(PageId(7), w, h);
+        page.set_pixel(w - 1, h - 1, true);
+        let before = page.as_bytes().to_vec();
+        for (x, y) in [(w, 0), (0, h), (w, h), (w + 7, 0), (u32::MAX, u32::MAX), (w - 1, h)] {
+            if let Ok(v) = catch(|| page.get_pixel(x, y)) {
+                return Err(format!("get_pixel({x},{y}) outside a {w}x{h} page returned {v} instead of panicking (called while the thread was unwinding)"));
+            }
+            if catch(|| page.set_pixel(x, y, true)).is_ok() {
+                return Err(format!("set_pixel({x},{y}) outside a {w}x{h} page returned instead of panicking (called while the thread was unwinding)"));
+            }
+            if page.as_bytes() != &before[..] {
+                return Err(format!("an out-of-bounds call at ({x},{y}) made while the thread was unwinding changed the {w}x{h} page"));
+            }
+        }
+        // in-bounds calls work there as anywhere
+        page.set_pixel(0, 0, true);
+        if !page.get_pixel(0, 0) || !page.get_pixel(w - 1, h - 1) {
+            return Err(format!("in-bounds calls on a {w}x{h} page misbehave while the thread is unwinding"));
+        }
+        Ok(())
+    });
+    match r {
+        Ok(Ok(())) => Ok(()),
+        Ok(Err(m)) => Err(m),
+        Err(p) => Err(format!("in-bounds page calls panicked while the thread was unwinding: {p}")),
+    }
+}
+
 pub fn run(ctx: &Ctx) {
     let (bw, bh) = ctx.tier.pick((24u32, 26u32), (48u32, 40u32));
     // exhaustive sweep: every size in the box, every coordinate in [0,w]x[0,h], set and clear, all-off and all-on
@@ -448,6 +479,16 @@ pub fn run(ctx: &Ctx) {
     });
     ctx.part_done("giant-pages", true, json!({"sizes": giants, "what": "set/get of ~130 pixels per page against the closed-form bit position, whole page compared"}));
 
+    // out-of-bounds calls made while the thread is unwinding from an unrelated panic (from a destructor): they must panic
+    // there too and leave the page alone
+    par_range(ctx, "out-of-bounds-while-unwinding", REAL_SIZES.len() as u64, |i, st| {
+        let (w, h) = REAL_SIZES[i as usize];
+        st.eval();
+        st.nontrivial_enumerated(1);
+        check_unwinding(w, h).map_err(|m| (json!({"unwinding": [w, h]}), m))
+    });
+    ctx.part_done("out-of-bounds-while-unwinding", true, json!("the 11 real sizes: six out-of-bounds probes each, made inside a destructor that runs while the thread unwinds from another panic"));
+
     run_generated(ctx, "sequences", ctx.tier.pick(200_000, 2_000_000), move || case_strategy(bw, bh), |c, st| check_page(c, st));
 }
 
@@ -456,6 +497,12 @@ pub fn replay(_part: &str, case: &Value) -> Result<(), String> {
         let w = g.first().and_then(|v| v.as_u64()).unwrap_or(1) as u32;
         let h = g.get(1).and_then(|v| v.as_u64()).unwrap_or(1) as u32;
         return crate::props::c07::check_giant(w, h, &mut Stats::new());
+    }
+    if case.get("unwinding").is_some() {
+        let g = case.get("unwinding").and_then(|v| v.as_array()).cloned().unwrap_or_default();
+        let w = g.first().and_then(|v| v.as_u64()).unwrap_or(1) as u32;
+        let h = g.get(1).and_then(|v| v.as_u64()).unwrap_or(1) as u32;
+        return check_unwinding(w, h);
     }
     let c: PageCase = serde_json::from_value(case.clone()).map_err(|e| format!("bad case: {e}"))?;
     check_page(&c, &mut Stats::new())
